@@ -59,7 +59,10 @@ C06All == Scalar \cup SameT \cup Multi \cup Cont
 (* ------------------------------- C09 ------------------------------------ *)
 P9(grp, stmts) == [grp |-> grp, stmts |-> stmts, src |-> Render(stmts)]
 Sizes == {"small-lamp", "inserter", "steel-chest", "pump", "assembling-machine-1", "storage-tank", "power-switch", "train-stop", "transport-belt"}
-Single == {P9("single", <<Place("e", pr, x, y)>>) : pr \in Sizes, x \in {0, -7, 12}, y \in {0, -5, 9}}
+\* negative coordinates are always refused by the layout stage of this compiler (fixed positions outside 0..max): a few are kept
+\* (a refusal is outside the antecedent; an acceptance would be judged), the bulk of the family is non-negative
+Single == {P9("single", <<Place("e", pr, x, y)>>) : pr \in Sizes, x \in {0, 7, 12}, y \in {0, 5, 9}}
+          \cup {P9("single", <<Place("e", pr, c[1], c[2])>>) : pr \in {"small-lamp", "storage-tank"}, c \in {<<-7, 0>>, <<0, -5>>, <<-7, -5>>}}
 Props9 == {
   P9("props", <<SPlace("e", "inserter", Num(0), Num(0), <<[k |-> "direction", v |-> Num(4)]>>)>>),
   P9("props", <<SPlace("e", "inserter", Num(0), Num(0), <<[k |-> "direction", v |-> Num(8)]>>), SPlace("f", "transport-belt", Num(2), Num(0), <<[k |-> "direction", v |-> Num(12)]>>)>>),
@@ -67,10 +70,10 @@ Props9 == {
   P9("props", <<SPlace("e", "small-lamp", Num(0), Num(0), <<[k |-> "use_colors", v |-> Num(1)], [k |-> "always_on", v |-> Num(1)]>>)>>)
  }
 Loops == {
-  P9("loop", <<SFor("i", IRange(Num(a), Num(b), Num(s)), <<SPlace("e", "small-lamp", Bin("*", Ref("i"), Num(2)), Num(0), <<>>)>>)>>) :
+  P9("loop", <<SFor("i", IRange(Num(a), Num(b), Num(s)), <<SPlace("e", "small-lamp", Bin("*", Bin("+", Ref("i"), Num(2)), Num(2)), Num(0), <<>>)>>)>>) :
       a \in {0, 3, -2}, b \in {0, 3, 5, -2}, s \in {0, 1, 2, -1}}
   \cup {
-  P9("loop", <<SFor("i", IList(<<1, 5, -4>>), <<SPlace("e", "inserter", Ref("i"), Bin("+", Ref("i"), Num(1)), <<>>)>>)>>),
+  P9("loop", <<SFor("i", IList(<<1, 5, -4>>), <<SPlace("e", "inserter", Bin("+", Ref("i"), Num(6)), Bin("+", Ref("i"), Num(5)), <<>>)>>)>>),
   P9("loop", <<SFor("i", IRange(Num(0), Num(3), Num(0)), <<SFor("j", IRange(Num(0), Num(2), Num(0)), <<SPlace("e", "small-lamp", Bin("*", Ref("i"), Num(2)), Bin("*", Ref("j"), Num(3)), <<>>)>>)>>)>>),
   P9("loop", <<SInt("n", Num(4)), SInt("w", Bin("+", Ref("n"), Num(1))), SFor("i", IRange(Num(0), Ref("n"), Num(0)), <<SPlace("e", "steel-chest", Bin("*", Ref("i"), Ref("w")), Num(2), <<>>)>>)>>),
   P9("loop", <<SFor("i", IRange(Num(0), Num(3), Num(0)), <<SInt("x", Bin("+", Bin("*", Ref("i"), Num(3)), Num(1))), SPlace("e", "assembling-machine-1", Ref("x"), Num(0), <<>>),
@@ -78,7 +81,7 @@ Loops == {
  }
 Funcs == {
   P9("func", <<SFunc("mk", <<[ty |-> "int", n |-> "x"], [ty |-> "int", n |-> "y"]>>, <<SPlace("e", "small-lamp", Ref("x"), Ref("y"), <<>>)>>, <<>>),
-               SExpr(CallE("mk", <<Num(0), Num(0)>>)), SExpr(CallE("mk", <<Num(3), Num(1)>>)), SExpr(CallE("mk", <<Num(-4), Num(2)>>))>>),
+               SExpr(CallE("mk", <<Num(0), Num(0)>>)), SExpr(CallE("mk", <<Num(3), Num(1)>>)), SExpr(CallE("mk", <<Bin("-", Num(2), Num(-4)), Num(2)>>))>>),
   P9("func", <<SFunc("mk", <<[ty |-> "int", n |-> "x"]>>, <<SPlace("e", "inserter", Ref("x"), Num(0), <<>>), SPlace("f", "steel-chest", Bin("+", Ref("x"), Num(1)), Num(0), <<>>)>>, <<>>),
                SFor("i", IRange(Num(0), Num(3), Num(0)), <<SExpr(CallE("mk", <<Bin("*", Ref("i"), Num(3))>>))>>)>>),
   P9("func", <<SFunc("inner", <<[ty |-> "int", n |-> "x"]>>, <<SPlace("e", "small-lamp", Ref("x"), Num(5), <<>>)>>, <<>>),
@@ -91,7 +94,7 @@ Shadow9 == {
                  SFor("i", IRange(Num(0), Num(3), Num(0)), <<SExpr(CallE("lamp_at", <<Bin("+", Ref("i"), Num(4))>>))>>)>>),
   P9("shadow", <<SInt("x", Num(3)), SFunc("chest_at", <<[ty |-> "int", n |-> "x"], [ty |-> "int", n |-> "row"]>>, <<SPlace("c", "steel-chest", Bin("+", Ref("x"), Num(1)), Ref("row"), <<>>)>>, <<>>),
                  SExpr(CallE("chest_at", <<Num(10), Num(0)>>)), SExpr(CallE("chest_at", <<Bin("*", Ref("x"), Num(5)), Num(2)>>))>>),
-  P9("shadow", <<SInt("x", Num(3)), SInt("y", Num(7)), SFunc("at", <<[ty |-> "int", n |-> "y"], [ty |-> "int", n |-> "x"]>>, <<SPlace("c", "small-lamp", Ref("x"), Un("-", Ref("y")), <<>>)>>, <<>>),
+  P9("shadow", <<SInt("x", Num(3)), SInt("y", Num(7)), SFunc("at", <<[ty |-> "int", n |-> "y"], [ty |-> "int", n |-> "x"]>>, <<SPlace("c", "small-lamp", Ref("x"), Bin("-", Num(20), Ref("y")), <<>>)>>, <<>>),
                  SExpr(CallE("at", <<Ref("x"), Ref("y")>>)), SExpr(CallE("at", <<Num(1), Num(2)>>))>>),
   P9("shadow", <<SFunc("inner", <<[ty |-> "int", n |-> "i"]>>, <<SPlace("e", "small-lamp", Bin("*", Ref("i"), Num(2)), Num(6), <<>>)>>, <<>>),
                  SFor("i", IList(<<5, 1>>), <<SFor("j", IRange(Num(0), Num(2), Num(0)), <<SExpr(CallE("inner", <<Bin("+", Ref("i"), Ref("j"))>>))>>)>>)>>),
